@@ -55,6 +55,7 @@ func main() {
 		}
 	}
 	seed := 0
+	curProp = *prop
 	if s := os.Getenv("VERIF_SEED"); s != "" {
 		seed, _ = strconv.Atoi(s)
 	}
@@ -362,6 +363,9 @@ func goPackageName(file string) string {
 	}
 	return filepath.Base(filepath.Dir(file))
 }
+
+// curProp: the property being checked (clauses tagged `only` are used by that property's proofs alone)
+var curProp string
 
 func fatalCheck(prop string, format string, a ...interface{}) {
 	msg := fmt.Sprintf(format, a...)
